@@ -189,7 +189,10 @@ def wire(req, host, etag):
 
 def http(port, data, timeout=10.0):
     """one request on one connection; returns (status, headers, body) or raises RespParseError"""
-    s = socket.create_connection(("127.0.0.1", port), timeout=timeout)
+    try:
+        s = socket.create_connection(("127.0.0.1", port), timeout=timeout)
+    except OSError as ex:
+        raise e2e.RespParseError("connect failed: %s" % ex)
     try:
         s.setsockopt(socket.IPPROTO_TCP, socket.TCP_NODELAY, 1)
         try:
@@ -402,22 +405,29 @@ def oracle(before, r, status, after, verdict, reftree):
         if is_file(before, r.src) and is_dir(before, dst):
             dst = dst + r.src[-1:]
         overlap = dst[:len(r.src)] == r.src or r.src[:len(dst)] == dst
+        depth0 = is_dir(before, r.src) and r.depth == "0"
+        lost = part = chg = None
         for k, v in subtree(before, r.src).items():
-            if v is None:
+            if v is None or depth0:
                 continue
             d = dst + k[len(r.src):]
             at_dst = after.get(d, None) == v and d in after
             at_src = after.get(k, None) == v and k in after
-            if ok2xx and not at_dst and not (overlap and at_src):
-                return ("partial-success", "%s answered %d but %s was not %s" %
-                        (r.describe(), status, b"/".join(k).decode("latin-1"),
-                         "copied" if r.m == "COPY" else "moved"))
+            name = b"/".join(k).decode("latin-1")
             if not at_dst and not at_src:
-                return ("data-loss", "%s (%d) lost the content of %s: neither at the source nor at the "
-                        "destination afterwards" % (r.describe(), status, b"/".join(k).decode("latin-1")))
+                lost = lost or name
+            if ok2xx and not at_dst and not (overlap and at_src):
+                part = part or name
             if r.m == "COPY" and not at_src and not overlap:
-                return ("copy-changed-source", "%s (%d) changed its source %s" %
-                        (r.describe(), status, b"/".join(k).decode("latin-1")))
+                chg = chg or name
+        if lost:
+            return ("data-loss", "%s (%d) lost the content of %s: neither at the source nor at the "
+                    "destination afterwards" % (r.describe(), status, lost))
+        if part:
+            return ("partial-success", "%s answered %d but %s was not %s" %
+                    (r.describe(), status, part, "copied" if r.m == "COPY" else "moved"))
+        if chg:
+            return ("copy-changed-source", "%s (%d) changed its source %s" % (r.describe(), status, chg))
     if verdict == "ok":
         if not ok2xx:
             return ("refused", "%s must succeed (RFC 4918) but was answered %d" % (r.describe(), status))
@@ -459,7 +469,7 @@ def spell_dest(rng, segs, slash):
     if k < 0.72:
         return b"http://" + AUTH + path + b"?x=/../y", intent
     if k < 0.77 and segs:
-        i = rng.randrange(len(path))
+        i = rng.randrange(1, len(path))
         return b"http://" + AUTH + path[:i] + b"%%%02x" % path[i] + path[i + 1:], intent
     if k < 0.82:
         i = rng.choice([j for j, ch in enumerate(path) if ch == 0x2f])
@@ -626,3 +636,256 @@ def scripted_sequences():
          P("/a", b"", range="3"), K("/c"), P("/c", b"x", range="0"), P("/c/", b"x", range="0"),
          P("/a", b"Q", range="0", pre="x---"), G("/a")],
     ]
+
+
+# ------------------------------------------------------------------------------------------------
+# dav-seq: run sequences against the real server, compare with the model, judge with the oracle
+# ------------------------------------------------------------------------------------------------
+def model_seq(lines):
+    out, rc, err = C.parallel_lines([C.ltmodel_path(), "dav"], lines)
+    if rc != 0 or len(out) != len(lines):
+        return None, err
+    return out, None
+
+
+def start_server(bd, strace=None, env=None):
+    srv = (StraceServer(bd, CONF, modules=MODS, inject=strace) if strace is not None
+           else e2e.Server(bd, CONF, modules=MODS, env=env))
+    os.makedirs(os.path.join(srv.root, "v", "default.test"), exist_ok=True)
+    with open(os.path.join(srv.root, "v", "canary"), "wb") as f:
+        f.write(b"canary")
+    return srv
+
+
+def outside_state(srv, hosts):
+    """what must not change: siblings of the collections and the upload directory"""
+    v = os.path.join(srv.root, "v")
+    names = sorted(n for n in os.listdir(v) if n not in hosts)
+    try:
+        can = open(os.path.join(v, "canary"), "rb").read()
+    except OSError:
+        can = None
+    return names, can, sorted(os.listdir(os.path.join(srv.root, "tmp")))
+
+
+def run_sequence(srv, host, reqs, expect):
+    """drive one sequence; `expect` = model tokens (or None).  Returns (nsteps, finding|None, keys)"""
+    docroot = os.path.join(srv.root, "v", host)
+    os.makedirs(docroot, exist_ok=True)
+    hb = host.encode()
+    before = {}
+    keys = []
+    for i, r in enumerate(reqs):
+        etag = None
+        if r.pre[0] == "m" and is_file(before, r.src) and not r.slash:
+            try:
+                st, hd, _ = http(srv.port, wire(Req("GET", r.src, False), hb, None))
+                if st == 200:
+                    etag = dict(hd).get(b"etag")
+            except e2e.RespParseError:
+                pass
+        perr = None
+        try:
+            status, hdrs, body = http(srv.port, wire(r, hb, etag))
+        except e2e.RespParseError as ex:
+            status, hdrs, body, perr = -1, [], b"", str(ex)
+        exp = expect[i] if expect is not None and i < len(expect) else None
+        if r.m == "GET":
+            obs = "%d;%s" % (status, show_content(body) if status == 200 else "-")
+            es, eb = ref_get(before, r)
+            keys.append("GET:%d" % status)
+            if perr is not None or (es is not None and (status != es or (es == 200 and body != eb))):
+                what = ("GET %s after the preceding requests returned %s; the collection holds %s" %
+                        (render(r.src, r.slash).decode("latin-1"),
+                         perr or ("%d %r" % (status, body[:40])),
+                         "no such resource" if es == 404 else repr(eb[:40])))
+                return i + 1, dict(kind="oracle", sig="stale-read", what=what, step=i, obs=obs, model=exp), keys
+            if exp is not None and exp != obs:
+                return i + 1, dict(kind="corr", sig="GET", what="GET: server %s, model %s" % (obs, exp), step=i,
+                                   obs=obs, model=exp), keys
+            continue
+        after = snapshot(docroot)
+        obs = "%d;%s" % (status, dump(after))
+        verdict, reftree = reference(before, r)
+        keys.append("%s:%d:%s" % (r.m, status, verdict))
+        o = oracle(before, r, status, after, verdict, reftree) if perr is None else \
+            ("bad-response", "%s: %s" % (r.describe(), perr))
+        if o is not None:
+            return i + 1, dict(kind="oracle", sig=o[0] + ":" + r.m, what=o[1], step=i, obs=obs, model=exp,
+                               before=pretty(before), after=pretty(after)), keys
+        if exp is not None and exp != obs and into_own_parent(before, r) and after == before \
+                and (status == 204 or status >= 400):
+            exp = obs      # either answer is acceptable for a copy/move of a file onto itself
+        if exp is not None and exp != obs:
+            return i + 1, dict(kind="corr", sig=r.m, what="%s on %s: server %d %s, model %s" %
+                               (r.describe(), pretty(before), status, pretty(after), exp), step=i, obs=obs,
+                               model=exp), keys
+        before = after
+    return len(reqs), None, keys
+
+
+def into_own_parent(t, r):
+    return (r.m in ("COPY", "MOVE") and r.dst and r.dst[0] == "ok" and is_file(t, r.src)
+            and is_dir(t, r.dst[1]) and r.dst[1] + r.src[-1:] == r.src)
+
+
+def seq_line(reqs):
+    return "seq " + " ".join(r.token() for r in reqs)
+
+
+def stream_seq(ctx, bd):
+    rng = ctx.rng
+    nseq = 700 if ctx.quick else 7000
+    seqs = scripted_sequences()
+    for i in range(nseq):
+        seqs.append(gen_sequence(rng, rng.choice([6, 10, 14, 20]), start_counter=i * 100))
+    lines = [seq_line(s) for s in seqs]
+    model, err = model_seq(lines) if ctx.model_ok else (None, "model not built")
+    if model is None:
+        ctx.broken.append({"kind": "model-run", "names": ["dav"], "log": (err or "")[-2000:]})
+    t0 = time.time()
+    nsrv = max(2, min(12, C.NCPU - 2))
+    findings = []
+    nsteps = 0
+    hosts = set("s%d.test" % i for i in range(len(seqs)))
+
+    def worker(k):
+        """one server, one client: sequences k, k+nsrv, …; a crashed server is reported and replaced"""
+        out = []
+        srv = start_server(bd).start()
+        try:
+            for i in range(k, len(seqs), nsrv):
+                exp = model[i].split(" ") if model is not None else None
+                if exp is not None and exp[0] == "bad-op":
+                    out.append((i, 0, dict(kind="corr", sig="bad-op", what="model rejected the line", step=0,
+                                           obs="", model="bad-op"), []))
+                    continue
+                n, f, keys = run_sequence(srv, "s%d.test" % i, seqs[i], exp)
+                rep = srv.sanitizer_report()
+                if rep or not srv.alive():
+                    loc = re.search(r"(\w+\.c):\d+", rep or "")
+                    f = dict(kind="oracle", sig="server-crash:" + (loc.group(1) if loc else "?"),
+                             step=max(0, n - 1), obs="", model="",
+                             what="server crashed / sanitizer report during %s: %s" %
+                             (seqs[i][max(0, n - 1)].describe(), (rep or srv.logs()[-1500:])[:1800]))
+                out.append((i, n, f, keys))
+                if f is not None and f["sig"].startswith("server-crash"):
+                    srv.stop()
+                    srv = start_server(bd).start()
+                    continue
+            now = outside_state(srv, hosts)
+            if (now[0], now[1]) != (["canary", "default.test"], b"canary") or now[2]:
+                out.append((-1, 0, dict(kind="oracle", sig="outside-changed", step=0, obs=str(now), model="",
+                                        what="files outside the WebDAV collections changed or upload temp "
+                                        "files were left: %r" % (now,)), []))
+        finally:
+            srv.stop()
+        return out
+    with ThreadPoolExecutor(nsrv) as ex:
+        res = [x for part in ex.map(worker, range(nsrv)) for x in part]
+    for i, n, f, keys in res:
+        nsteps += n
+        ctx.evaluations += n
+        for k in keys:
+            ctx.keys["seq:" + k] += 1
+        if i >= 0:
+            for r in seqs[i][:n]:
+                ctx.dist[r.m + ("/range" if r.range != "-" else "") +
+                         ("/empty" if r.m == "PUT" and not r.body else "")] += 1
+        if f is not None:
+            f["seq"] = i
+            findings.append(f)
+    report_findings(ctx, "dav-seq", findings, lambda f: seq_line(seqs[f["seq"]][:f["step"] + 1]) if f["seq"] >= 0 else "")
+    ctx.streams.append({"name": "dav-seq", "cases": len(seqs), "requests": nsteps,
+                        "disagreements": sum(1 for f in findings if f["kind"] == "corr"),
+                        "oracle_hits": sum(1 for f in findings if f["kind"] == "oracle"),
+                        "wall_s": round(time.time() - t0, 2)})
+    for s in seqs[len(scripted_sequences()):][:3]:
+        ctx.sample({"stream": "dav-seq", "input": seq_line(s)[:600]})
+
+
+def report_findings(ctx, stream, findings, replay_input):
+    """one violation per distinct signature (shortest witness); oracle hits explain correspondence breaks"""
+    by = {}
+    for f in findings:
+        k = (f["kind"], f["sig"])
+        if k not in by or f["step"] < by[k]["step"]:
+            by[k] = f
+    have_oracle = any(k[0] == "oracle" for k in by)
+    for (kind, sig), f in sorted(by.items()):
+        rep = {"property": ctx.pid, "kind": "property-oracle" if kind == "oracle" else "correspondence",
+               "correspondence": stream, "input": replay_input(f), "impl_obs": f.get("obs"),
+               "model_obs": f.get("model"), "oracle_verdict": f["what"] if kind == "oracle" else
+               "no property-level failure found on this input", "step": f["step"],
+               "count": sum(1 for g in findings if (g["kind"], g["sig"]) == (kind, sig))}
+        if kind == "oracle":
+            ctx.violation("oracle:%s:%s" % (stream, sig), f["what"], rep, found=True)
+        else:
+            ctx.violation("corr:%s:%s" % (stream, sig), "model/implementation correspondence %s broken: %s" %
+                          (stream, f["what"]), rep, found=False if not have_oracle else False)
+
+
+class StraceServer(e2e.Server):
+    """lighttpd under `strace -f` (file and descriptor calls), optionally with one injection"""
+
+    def __init__(self, *a, inject=None, **kw):
+        super().__init__(*a, **kw)
+        self.inject = inject
+        self.trace = os.path.join(self.root, "trace.txt")
+
+    def start(self, timeout=30):
+        self.stderr_path = os.path.join(self.root, "stderr.log")
+        self.stderr_f = open(self.stderr_path, "wb")
+        cmd = ["strace", "-f", "-o", self.trace, "-s", "0", "-e", "trace=%file,%desc"]
+        for inj in (self.inject or ()):
+            cmd += ["-e", "inject=" + inj]
+        cmd += [os.path.join(self.bindir, "lighttpd"), "-D", "-f", self.conf, "-m", self.bindir]
+        self.proc = subprocess.Popen(cmd, stdout=self.stderr_f, stderr=self.stderr_f, env=self.env,
+                                     cwd=self.root)
+        t0 = time.time()
+        while time.time() - t0 < timeout:
+            if self.proc.poll() is not None:
+                raise RuntimeError("lighttpd (strace) exited at start: " + self.logs()[-2000:])
+            try:
+                s = socket.create_connection(("127.0.0.1", self.port), timeout=0.3)
+                s.close()
+                return self
+            except OSError:
+                time.sleep(0.05)
+        raise RuntimeError("lighttpd (strace) did not start: " + self.logs()[-2000:])
+
+
+def run(ctx):
+    bd, err = e2e.build_server()
+    if bd is None:
+        ctx.broken.append({"kind": "server-build", "names": ["lighttpd"], "log": (err or "")[-3000:]})
+        return
+    stream_seq(ctx, bd)
+    ctx.rule = ("distinct (stream, method, status, reference verdict) / (PUT kind, fault, outcome) tuples "
+                "observed on the real server")
+    ctx.trusted = ["Lean 4.33.0 kernel", "hand-written models tied to the code by the e2e streams below",
+                   "Linux file-system semantics", "strace fault/kill injection", "gcc + ASan/UBSan",
+                   "Python RFC 4918 reference oracle"]
+
+
+def replay_line(ctx, rep):
+    line = rep["input"]
+    toks = line.split(" ")
+    if toks[0] != "seq":
+        print("replay of %s inputs: re-run the check" % toks[0])
+        return 0
+    reqs = [parse_token(t) for t in toks[1:]]
+    bd, err = e2e.build_server()
+    m, _, _ = C.run_model("dav", [line])
+    exp = m[0].split(" ") if m else None
+    srv = start_server(bd)
+    with srv:
+        n, f, keys = run_sequence(srv, "replay.test", reqs, exp)
+    for r in reqs:
+        print("  ", r.describe())
+    print("model:", m[0] if m else None)
+    print("finding:", f)
+    if f is not None:
+        print("VIOLATION property=%s replay=%s" % (ctx.pid, "(replayed)"))
+        return 1
+    return 0
